@@ -355,9 +355,18 @@ func localRules(txns []*hTxn) []histFinding {
 //	must-commit: read-only, write-only and never-overlapped transactions must not be refused
 func conflictRules(txns []*hTxn) (findings []histFinding, judged, unjudged int) {
 	var writers []*hTxn
+	writerOf := map[int32]*hTxn{}
+	deletes := map[int]bool{}
 	for _, t := range txns {
 		if t.committedWriter() {
 			writers = append(writers, t)
+		}
+		for _, w := range t.Writes {
+			if w.V > 0 {
+				writerOf[w.V] = t
+			} else {
+				deletes[w.K] = true
+			}
 		}
 	}
 	for _, t := range txns {
@@ -415,6 +424,47 @@ func conflictRules(txns []*hTxn) (findings []histFinding, judged, unjudged int) 
 			continue
 		}
 		definite := false
+		// stale read at commit time: T read value v of key k from the store; a committed W (not T, not
+		// v's writer) wrote k, W's commit started after v's writer had finished (so W's version is
+		// newer than v) and W's commit had returned before T's Commit was called. T did not see W's
+		// write although W committed after T's snapshot: T had to be refused.
+		for _, rd := range t.storeReads() {
+			if definite {
+				break
+			}
+			var vw *hTxn
+			if rd.V > 0 {
+				vw = writerOf[rd.V]
+				if vw == nil {
+					continue
+				}
+			} else if rd.V < 0 || deletes[rd.K] {
+				continue // 'not found' is ambiguous once the key has been deleted by someone
+			}
+			for _, w := range writers {
+				if w.ID == t.ID || (vw != nil && w.ID == vw.ID) {
+					continue
+				}
+				wrote := false
+				for _, ww := range w.Writes {
+					if ww.K == rd.K {
+						wrote = true
+					}
+				}
+				if !wrote || w.EndRet >= t.EndCall {
+					continue
+				}
+				if vw != nil && !(vw.EndRet < w.EndCall) {
+					continue
+				}
+				findings = append(findings, histFinding{"C07", "missed-conflict/stale-read", fmt.Sprintf("%s committed although it had read k%d=%d and %s, whose newer write to k%d it did not see, had committed before its Commit was called", t, rd.K, rd.V, w, rd.K)})
+				definite = true
+				break
+			}
+		}
+		if definite {
+			continue
+		}
 		for _, w := range writers {
 			if w.ID == t.ID {
 				continue
@@ -518,6 +568,19 @@ func histSelfTest() error {
 	}
 	if f, _, _ := conflictRules(ms); len(f) != 1 || !strings.HasPrefix(f[0].Sig, "missed") {
 		return fmt.Errorf("history self-test: missed conflict not flagged: %v", f)
+	}
+	// stale read at commit time: W committed while T was still inside Begin, T read the old value
+	st := []*hTxn{
+		mk(1, true, 1, 2, 3, 4, nil, []hWrite{{0, 1}}, "committed"),
+		mk(2, true, 5, 12, 20, 21, []hRead{{K: 0, V: 1}}, []hWrite{{1, 7}}, "committed"),
+		mk(3, true, 6, 7, 8, 9, nil, []hWrite{{0, 2}}, "committed"),
+	}
+	if f, _, _ := conflictRules(st); len(f) != 1 || f[0].Sig != "missed-conflict/stale-read" {
+		return fmt.Errorf("history self-test: stale read at commit time not flagged: %v", f)
+	}
+	st[1].Reads[0].V = 2 // it saw the newer write: fine
+	if f, _, _ := conflictRules(st); len(f) != 0 {
+		return fmt.Errorf("history self-test: false alarm of the stale-read rule: %v", f)
 	}
 	return nil
 }
